@@ -52,6 +52,19 @@ def op(name, *args):
         ka, kb = _okey(a), _okey(b)
         if kb < ka or (ka == kb and a != b and repr(b) < repr(a)):
             args = (b, a)
+    if name == 'isub' and len(args) == 2 and isinstance(args[0], tuple) and args[0][:2] == ('op', 'iadd') and isinstance(args[1], tuple) \
+            and args[1][:1] == ('lit',) and args[0][2][1] == args[1]:
+        return args[0][2][0]        # (x + k) - k
+    if name == 'neg' and len(args) == 1 and isinstance(args[0], tuple) and args[0][:2] == ('op', 'div'):
+        # -(a / b) and (-a) / b are the same float, bit for bit: one spelling
+        return ('op', 'div', (op('neg', args[0][2][0]), args[0][2][1]))
+    if name in ('add', 'sub', 'mul') and len(args) == 2 and all(isinstance(a_, tuple) and a_[:1] == ('lit',) and len(a_) == 3 and a_[2] == 'f'
+                                                               and isinstance(a_[1], float) and a_[1] == int(a_[1]) and abs(a_[1]) <= 64 for a_ in args):
+        # arithmetic on small integral float literals is exact in every float type (`T::one() + T::one()` is 2.0)
+        x_, y_ = args[0][1], args[1][1]
+        r_ = {'add': x_ + y_, 'sub': x_ - y_, 'mul': x_ * y_}[name]
+        if abs(r_) <= 4096:
+            return ('lit', float(r_), 'f')
     # integer identities (exact): n - 0, n + 0, n * 1
     if len(args) == 2 and name in ('iadd', 'isub', 'imul'):
         a, b = args
@@ -323,6 +336,13 @@ class VG:
                 self.set_field('%s.%s' % (path, k_), x, node)
             self.fields.pop(path, None)
             return
+        if isinstance(t, tuple) and t and t[0] == 'in' and t[1] != path and self._is_plain_struct_field(path):
+            # `self.prev = self.cur`: a whole-struct copy from another struct-typed field: cell by cell
+            names, _ = self._struct_field_names(path)
+            for n_ in names:
+                self.set_field(path + '.' + n_, self.get_field(t[1] + '.' + n_), node)
+            self.fields.pop(path, None)
+            return
         if isinstance(t, tuple) and t and t[0] not in ('struct', 'in', 'tuple') and '.' not in path[-2:] and self._is_plain_struct_field(path):
             # a struct-typed field overwritten with a value that is not a struct literal: its cells are the projections of that
             # value (never the stale cells)
@@ -398,6 +418,11 @@ class VG:
                 return ('field', b[1] + e['name'])
             if b[0] == 'field':
                 return ('field', b[1] + '.' + e['name'])
+            if b[0] in ('local', 'lfield'):
+                # a field of a struct value held in a local (`let mut s = Self { .. }; s.m = ..; s`)
+                cur = self.read_place(b)
+                if isinstance(cur, tuple) and cur and cur[0] == 'struct' and isinstance(cur[2], dict):
+                    return ('lfield', b, e['name'])
             return None
         if k == 'index':
             b = self.place_of(e['base'], fr)
@@ -420,6 +445,11 @@ class VG:
         k = p[0]
         if k == 'field':
             return self.get_field(p[1])
+        if k == 'lfield':
+            cur = self.read_place(p[1])
+            if isinstance(cur, tuple) and cur and cur[0] == 'struct' and isinstance(cur[2], dict) and p[2] in cur[2]:
+                return cur[2][p[2]]
+            return ('fieldof', cur, p[2])
         if k == 'local':
             fr = self.frames[-1]
             return fr.locals.get(p[1], unk('uninit-local'))
@@ -449,6 +479,14 @@ class VG:
             self.write_place(p[1], ('set_back', self.read_place(p[1]), t), node)
         elif k == 'front':
             self.write_place(p[1], ('set_front', self.read_place(p[1]), t), node)
+        elif k == 'lfield':
+            cur = self.read_place(p[1])
+            if isinstance(cur, tuple) and cur and cur[0] == 'struct' and isinstance(cur[2], dict):
+                d2 = dict(cur[2])
+                d2[p[2]] = t
+                self.write_place(p[1], ('struct', cur[1], d2), node)
+            else:
+                self.note_unknown('write-to-field-of-opaque-local', node)
         elif k == 'self' and isinstance(t, tuple) and t and t[0] == 'struct' and isinstance(t[2], dict):
             # `*self = Self { .. }` inside a method of a (nested) struct: every field of it is written
             flat = flatten_struct(self.F, t, p[1])
@@ -767,7 +805,7 @@ class VG:
                 finally:
                     self.const_depth -= 1
             return ('const', name)
-        if name == 'std::cmp::Ordering::Equal':
+        if name in ('std::cmp::Ordering::Equal', 'std::cmp::Ordering::Greater', 'std::cmp::Ordering::Less'):
             return ('const', name)
         if short in FLOAT_CONSTS and name.startswith(('num::', 'num_traits::')) and name.split('::')[-2] in ('Zero', 'One', 'Float', 'identities'):
             # `T::zero` / `T::one` passed as a function value (`unwrap_or_else(T::zero)`): the closure `|| 0.0` / `|| 1.0`
@@ -845,6 +883,15 @@ class VG:
             return op(o, l, r)
         l = self.value(e['l'], fr)
         r = self.value(e['r'], fr)
+        if o in ('eq', 'ne'):
+            # `a.partial_cmp(&b).unwrap() == Ordering::Greater` (or `!=`): the comparison itself
+            for x_, y_ in ((l, r), (r, l)):
+                if isinstance(x_, tuple) and x_[:2] == ('op', 'partial_cmp') and isinstance(y_, tuple) and y_ and y_[0] == 'const' \
+                        and y_[1].startswith('std::cmp::Ordering::'):
+                    rel = {'Greater': 'gt', 'Less': 'lt', 'Equal': 'eq'}.get(y_[1].split('::')[-1])
+                    if rel:
+                        c_ = op(rel, x_[2][0], x_[2][1])
+                        return c_ if o == 'eq' else neg_cond(c_)
         if is_int_tyname(lty):
             if o in ('sub', 'add', 'mul', 'div', 'rem'):
                 self.event('int_' + o, (l, r, lty), e)
@@ -979,7 +1026,17 @@ class VG:
             self.event('panic', (e.get('macro', 'panic'),), e)
             self.dead = True
             return unk('panic')
-        args = [self.value(a, fr) for a in e['args']]
+        if e.get('debug'):
+            # a debug assertion is compiled out of release builds: its arguments must not have effects, or the two profiles
+            # behave differently (the facts are extracted from the dev profile, where the effect is visible)
+            f_before = dict(self.fields)
+            l_before = dict(fr.locals)
+            args = [self.value(a, fr) for a in e['args']]
+            if any(f_before.get(k_, ('in', k_)) != t_ for k_, t_ in self.fields.items()) or \
+                    any(k_ in fr.locals and fr.locals[k_] != v_ for k_, v_ in l_before.items()):
+                self.note_unknown('side effect inside debug_assert! (compiled out of release builds)', e)
+        else:
+            args = [self.value(a, fr) for a in e['args']]
         self.event('assert' if not e['debug'] else 'debug_assert', (e['name'], tuple(args)), e)
         if e['name'] == 'assert' and not e['debug'] and args:
             # a hard assert constrains the continuation (constructor preconditions)
@@ -1000,6 +1057,15 @@ class VG:
             f = {x['name']: self.value(x['e'], fr) for x in e['fields']}
             return ('range', lit(0, 'i'), f.get('end', unk('end')), name.endswith('Inclusive'))
         fs = {}
+        if 'base' in e:
+            # `Self { a, ..base }`: the remaining fields come from the base value
+            bv = self.value_noderef(e['base'], fr)
+            if isinstance(bv, tuple) and bv and bv[0] == 'ref':
+                bv = self.deref(bv)
+            if isinstance(bv, tuple) and bv and bv[0] == 'struct' and isinstance(bv[2], dict):
+                fs.update(bv[2])
+            else:
+                self.note_unknown('struct-update-base', e)
         for x in e['fields']:
             fs[x['name']] = self.value_noderef(x['e'], fr)
         from .places import OPTION_LIKE_SOME_MULTI, OPTION_LIKE_SOME
@@ -1216,9 +1282,45 @@ class VG:
         o_ = c['op']
         if o_ in ('Gt', 'Ge'):
             l_, r_, o_ = r_, l_, {'Gt': 'Lt', 'Ge': 'Le'}[o_]
+        if o_ == 'Lt' and l_.get('k') == 'lit' and str(l_.get('v')) == '0' and r_.get('k') == 'local' and is_int_tyname(r_.get('ty', '')):
+            # `while i > 0 { i -= 1; body }`: a count-down over i0-1, .., 0
+            return self._countdown_while(r_['id'], then, fr, iff)
         if l_.get('k') != 'local' or not is_int_tyname(l_.get('ty', '')):
             return None
         return self._counted_core(l_['id'], then, r_, lambda: self.value(r_, fr), o_ == 'Le', fr, iff)
+
+    def _countdown_while(self, iid, then, fr, node):
+        if then.get('k') != 'block' or 'expr' in then or len(then.get('stmts', [])) < 1:
+            return None
+        first = strip(then['stmts'][0].get('e', {})) if then['stmts'][0].get('k') != 'let' else {}
+        if first.get('k') != 'assignop' or first.get('op') != 'SubAssign':
+            return None
+        tl, tr = strip(first['l']), strip(first['r'])
+        if tl.get('k') != 'local' or tl['id'] != iid or tr.get('k') != 'lit' or str(tr.get('v')) != '1':
+            return None
+        rest = dict(then)
+        rest['stmts'] = then['stmts'][1:]
+        if any(n.get('k') in ('break', 'continue', 'ret', 'try', 'loop', 'closure') for n in walk(rest)):
+            return None
+        for n in walk(rest):
+            if n.get('k') in ('assign', 'assignop'):
+                t0 = strip(n['l'])
+                if t0.get('k') == 'local' and t0['id'] == iid:
+                    return None
+            if n.get('k') == 'addr' and n.get('mut') and any(x.get('k') == 'local' and x.get('id') == iid for x in walk(n)):
+                return None
+        i0 = fr.locals.get(iid)
+        if i0 is None:
+            return None
+        # at the top of each iteration the counter holds i0, i0-1, .., 1; the decrement stays in the body (its underflow
+        # obligation is judged under the loop hypotheses)
+        forn = {'k': 'for', 'pat': {'k': 'bind', 'id': iid}, 'iter': node, 'body': then, 'ty': '()', 'sp': node.get('sp')}
+        L_ = 'L%d' % (self.nloops + 1)
+        self.v_for(forn, fr, it=('rev', ('range', lit(1, 'i'), _iadd(i0, lit(1, 'i')), False)))
+        if L_ in self.loops:
+            self.loops[L_]['carried'].pop(('local', iid), None)
+        fr.locals[iid] = lit(0, 'i')
+        return ('unit',)
 
     def _counted_loop_letelse(self, e, fr):
         """`loop { let Some(p) = S.get(i) else { break V }; body; i += 1; }` is `for i in i0..S.len() { let Some(p) = S.get(i); body }`
@@ -1396,6 +1498,11 @@ class VG:
                 it = ('iter', ('get', base, r))
             elif it[1][0] != 'elem':
                 it = ('iter', self.read_place(it[1]))
+        # `for x in it.map(f).filter(p)`: adaptors applied to the item (map) / guarding the body (filter), outermost first
+        adaptors = []
+        while isinstance(it, tuple) and it and it[0] in ('map', 'filter') and len(it) == 3 and isinstance(it[2], tuple) and it[2] and it[2][0] == 'closure':
+            adaptors.append((it[0], it[2]))
+            it = it[1]
         self.nloops += 1
         L = 'L%d' % self.nloops
         body = e['body']
@@ -1457,11 +1564,30 @@ class VG:
         if self.last_canon is not None:
             info['iter'] = self.last_canon
         info['hyps'] = hyps
-        self.bind_pat(e['pat'], item, fr)
+        if item == ('item', L):
+            # an iterator this model has no element relation for (step_by, windows, chunks, ...): fail closed -- an opaque item
+            # would otherwise be typed as an input-independent quantity
+            self.note_unknown('loop over an iterator whose items are not modelled', e)
         saved_pc = list(self.pc)
         self.pc.append(('inloop', L))
         self.loop_stack.append(L)
-        self.block_value(body, fr)
+        keep_ = []
+        for kind_, cl_ in reversed(adaptors):
+            if kind_ == 'map':
+                item = self.apply_closure(cl_, [item], fr)
+            else:
+                keep_.append(self.deref(self.apply_closure(cl_, [item if (isinstance(item, tuple) and item and item[0] == 'ref') else item], fr)))
+        self.bind_pat(e['pat'], item, fr)
+        if keep_:
+            # a filtered-out item skips the body: its effects are conditional on the predicate
+            cond_ = conj(keep_)
+            saved_ = self.save()
+            self.pc.append(cond_)
+            self.block_value(body, fr)
+            if not self.dead:
+                self.merge_after_closure(saved_, cond_)
+        else:
+            self.block_value(body, fr)
         self.loop_stack.pop()
         if self.dead:
             self.note_unknown('loop-body-diverges', e)
@@ -1687,12 +1813,17 @@ class VG:
             # parameter -- a reference to the receiver's place, or the receiver's value
             rp0 = self.place_of(args[0], fr)
             foreign = getattr(target, 'adt', None) not in self.F.adts
-            if foreign or (rp0 is not None and rp0[0] == 'local') or rp0 is None:
+            if rp0 is not None and rp0[0] == 'field' and not foreign:
+                cur0 = self.read_place(rp0)
+                if isinstance(cur0, tuple) and cur0 and cur0[0] == 'const':
+                    # a method of a mode selector (`self.kind.prefers(a, b)`): `self` is that unit variant
+                    self_value = cur0
+            if self_value is None and (foreign or (rp0 is not None and rp0[0] == 'local') or rp0 is None):
                 rv0 = self.value_noderef(args[0], fr)
                 if not (isinstance(rv0, tuple) and rv0 and rv0[0] == 'selfref'):
                     if rp0 is not None and rp0[0] in ('field', 'elem', 'payload') :
                         self_value = ('ref', rp0)
-                    elif isinstance(rv0, tuple) and rv0 and rv0[0] in ('struct', 'ref', 'tuple'):
+                    elif isinstance(rv0, tuple) and rv0 and rv0[0] in ('struct', 'ref', 'tuple', 'const'):
                         self_value = rv0
                     elif foreign and rp0 is not None and rp0[0] == 'local':
                         self_value = ('ref', rp0)
@@ -1781,7 +1912,7 @@ class VG:
                 return lit(FLOAT_CONSTS[short], 'f')
             if short in FLOAT_SENTINELS and not argv:
                 return ('sentinel', short)
-            if short == 'from' and len(argv) == 1:
+            if short in ('from', 'cast') and len(argv) == 1 and (short == 'from' or name.endswith('cast::cast') or name.endswith('::cast')):
                 a = d(argv[0])
                 aty = e['args'][0].get('ty', '')
                 if a[0] == 'lit' and a[2] == 'f':
@@ -1988,6 +2119,9 @@ class VG:
             return ('default', ty)
         if name in ('std::cmp::PartialOrd::partial_cmp',):
             return some(op('partial_cmp', d(argv[0]), d(argv[1])))
+        if name in ('std::cmp::Ord::cmp',) and len(argv) == 2:
+            # a total order (integers): the Ordering itself; `match a.cmp(&b) { Less => .., Equal => .., Greater => .. }`
+            return op('partial_cmp', d(argv[0]), d(argv[1]))
         if name in ('std::cmp::PartialOrd::lt', 'std::cmp::PartialOrd::le', 'std::cmp::PartialOrd::gt', 'std::cmp::PartialOrd::ge',
                     'std::cmp::PartialEq::eq', 'std::cmp::PartialEq::ne'):
             return op(short, d(argv[0]), d(argv[1]))
@@ -2229,7 +2363,16 @@ class VG:
             return ('unit',)
         if short in ('swap',):
             if place is not None:
-                self.write_place(place, ('swap', s, d(argv[1]), d(argv[2])), e)
+                i_, j_ = d(argv[1]), d(argv[2])
+                if isinstance(s, tuple) and s and s[0] == 'seq_lit' and all(isinstance(x_, tuple) and x_[:1] == ('lit',) and isinstance(x_[1], int) and 0 <= x_[1] < len(s[1]) for x_ in (i_, j_)):
+                    # swapping two registers of a small fixed-size array: the literal with the two elements exchanged
+                    elems = list(s[1])
+                    elems[i_[1]], elems[j_[1]] = elems[j_[1]], elems[i_[1]]
+                    self.event('index', (s, i_), e)
+                    self.event('index', (s, j_), e)
+                    self.write_place(place, ('seq_lit', tuple(elems)), e)
+                else:
+                    self.write_place(place, ('swap', s, i_, j_), e)
             return ('unit',)
         if short in ('drain', 'retain', 'dedup', 'sort', 'sort_by', 'reverse', 'rotate_left', 'rotate_right', 'split_off'):
             if place is not None:
@@ -3011,6 +3154,15 @@ def mode_fields(F, view):
             cand = {}
             break
         consts = {k: t for k, t in init.items() if isinstance(t, tuple) and t and t[0] == 'const'}
+        # a parameter stored twice, once as given and once pre-converted (`window_len_t: T::from(window_len)`): the converted copy
+        # is the conversion of the stored parameter
+        as_given = {}
+        for k, t in init.items():
+            if isinstance(t, tuple) and t and t[0] == 'arg':
+                as_given.setdefault(t, k)
+        for k, t in init.items():
+            if isinstance(t, tuple) and t[:2] == ('op', 'from_int') and t[2][0] in as_given:
+                consts[k] = ('op', 'from_int', (('in', as_given[t[2][0]]),))
         cand = consts if cand is None else {k: t for k, t in cand.items() if consts.get(k) == t}
     cand = cand or {}
     if cand and view.update is not None:
